@@ -377,3 +377,90 @@ ASYNC_TEXT = ('Theorems (Coq): MRBFuture::poll modelled as two synchronous attem
               'result, otherwise Pending with no ledger event, the Spec state untouched and the polling task registered; tie: async histories on the real wrappers.')
 CHECKS['C14'] = AsyncCheck('C14', is_c14, ASYNC_TEXT)
 CHECKS['C15'] = AsyncCheck('C15', is_c15, ASYNC_TEXT + ' (b) "is woken" is refuted (C15_refuted, C15_never_woken): known finding F8.', wake_oracle=True)
+
+
+# ------------------------------------------------------------------------------------------- concurrency: C02 C03 C07 C10
+def at_events(line):
+    a = field(line, 'at')
+    return [x for x in (a or '').split(',') if x]
+def is_c03(d):
+    e, a = at_events(d.expected), at_events(d.actual)
+    strip = lambda ev: [re.sub(r':(rlx|acq|rel|acqrel|seqcst)', '', x) for x in ev]
+    if e != a and (strip(e) == strip(a) or any('@early' in x for x in a)): return True     # an ordering changed, or data published early
+    # an iterator at another position than the Spec's: its window overlaps another iterator's
+    return d.kind == 'spec' and (d.field(d.expected, 'ix') != d.field(d.actual, 'ix') or d.field(d.expected, 'pub') != d.field(d.actual, 'pub'))
+def is_c02(d):
+    return any('@early' in x for x in at_events(d.actual)) or (d.res(d.expected) != d.res(d.actual) and 'kind=conc' in (d.cfg or '') + 'kind=async')
+def is_c07(d):
+    return opname(d.op()) in ('drop', 'dropbuf', 'resplit') or d.expected.startswith('live=') or any(x.startswith(('and:', 'or:', 'fence', 'free')) for x in at_events(d.expected) + at_events(d.actual))
+def is_c10(d):
+    return len(at_events(d.expected)) != len(at_events(d.actual)) or at_events(d.expected) != at_events(d.actual)
+
+WITNESS = {
+ # (what is weak) -> Coq term that evaluates to true when the weakened machine has a racy / unsafe execution
+ 'idx_load': ('race (gexec false true 2 (ginit 2) [(true, 0); (true, 0); (true, 0); (false, 1); (false, 0)])',
+              'two-stage machine, len 2: P: check, write slot 0, publish;  C: loads the published index WITHOUT acquiring, reads slot 0  => the read races with the write'),
+ 'idx_store': ('race (gexec true false 2 (ginit 2) [(true, 0); (true, 0); (true, 0); (false, 1); (false, 0)])',
+               'two-stage machine, len 2: P: check, write slot 0, publishes WITHOUT release;  C: acquires the index, reads slot 0  => the read races with the write'),
+ 'alive_rmw': ('uaf (dexec false false (mkB3 true false true) [TP; TC; TP; TC; TC])',
+               'drop protocol, two iterators: both make their last access, both clear their bit with a relaxed RMW, the last one frees without having synchronised with the other\'s last access'),
+}
+
+class ConcCheck(SeqCheck):
+    def __init__(self, prop, pred, text):
+        super().__init__(prop, pred, text)
+        self.with_async = True
+    def suites(self, ctx):
+        s = ctx.seed
+        if ctx.tier == 'quick':
+            return [('rand', ['rand', s, 1200, 20, 120]), ('life', ['life', s, 1500]), ('exh', ['bfs', 2, 100000000]), ('exh3', ['bfs', 3, 1500])]
+        return [('rand', ['rand', s, 25000, 20, 200]), ('life', ['life', s, 25000]), ('exh', ['bfs', 3, 100000000])]
+    def prepare(self, ctx):
+        rc, out = common.sh(['python3', os.path.join(common.ROOT, 'tools', 'extract_facts.py')])
+        ctx.notes['extract_facts'] = out.strip().split('\n')
+        return super().prepare(ctx)
+    def observed_profile(self):
+        txt = open(os.path.join(common.COQ, 'gen', 'Profile.v')).read()
+        m = re.search(r'mkProfile (\w+) (\w+) (\w+) (\w+) (\w+) (\w+)', txt)
+        return m.groups() if m else None
+    def decide(self, ctx, divs, proof_broken, log):
+        prof = self.observed_profile()
+        weak = []
+        if prof:
+            if prof[0] not in ('Acquire', 'AcqRel', 'SeqCst'): weak.append('idx_load')
+            if prof[1] not in ('Release', 'AcqRel', 'SeqCst'): weak.append('idx_store')
+            if prof[2] not in ('AcqRel', 'SeqCst'): weak.append('alive_rmw')
+        # dynamic observation of the same thing: an ordering in the hook log weaker than the model's
+        for d in divs:
+            for e, a in zip(at_events(d.expected), at_events(d.actual)):
+                if e != a and e.split(':')[:2] == a.split(':')[:2]:
+                    if e.startswith('ld:') and e.split(':')[1] in 'PWC' and 'idx_load' not in weak and ':rlx:' in a + ':': weak.append('idx_load')
+                    if e.startswith('st:') and 'idx_store' not in weak and ':rlx:' in a + ':': weak.append('idx_store')
+        relevant = {'C02': ('idx_load', 'idx_store'), 'C03': ('idx_load', 'idx_store'), 'C07': ('alive_rmw',), 'C10': ()}[ctx.prop]
+        for w in weak:
+            if w in relevant:
+                term, story = WITNESS[w]
+                src = ('From Coq Require Import List. Import ListNotations.\nRequire Import MRB.Conc.RA MRB.Conc.RAg MRB.Conc.Drop.\n'
+                       f'Eval vm_compute in ({term}).\n')
+                pth = os.path.join(ctx.work, 'witness.v'); open(pth, 'w').write(src)
+                rc, out = common.sh(['coqc', '-Q', common.COQ, 'MRB', pth], cwd=ctx.work)
+                if 'true' in out:
+                    ctx.violation(f'the memory ordering of the {w.replace("_", " ")} is too weak (source: {prof}): the view machine has an execution with a data race / use after free',
+                                  f'## model-level failing execution (evaluated by coqc on this run): {term} = true\n## {story}\n## observed profile (gen/Profile.v): {prof}\n'
+                                  + ('## first diverging event trace:\n' + divs[0].replay_text() if divs else ''))
+                    return
+        mine = [d for d in divs if self.pred(d)]
+        if mine:
+            d = min(mine, key=lambda d: len(d.prefix()))
+            ctx.violation(f'at `{d.op()}` the real crate performs other atomic accesses / publishes at another point than the model the theorems are about: expected `{field(d.expected, "at")}`, got `{field(d.actual, "at")}` (result `{d.res(d.actual)}`)',
+                          d.replay_text())
+            return
+        super().decide(ctx, divs, proof_broken, log)
+
+CONC_TEXT = ('Theorems (Coq): release/acquire view machine (vector-clock race detector, stale reads) for the two- and three-stage pipeline: race freedom and the prefix property for every length, '
+             'interleaving and stale read; the drop protocol for every schedule; bounded micro-programs. Closed against the orderings / structure regenerated from the source. '
+             'Tie: per-call atomic event traces (kind, location, ordering, value, data-before-publication probe) of the real crate compared with the model on every history.')
+CHECKS['C02'] = ConcCheck('C02', is_c02, CONC_TEXT)
+CHECKS['C03'] = ConcCheck('C03', is_c03, CONC_TEXT)
+CHECKS['C07'] = ConcCheck('C07', is_c07, CONC_TEXT)
+CHECKS['C10'] = ConcCheck('C10', is_c10, CONC_TEXT)
